@@ -66,7 +66,12 @@ class IntervalSegmenter(_PanelToPanelTransformer):
                 raise ValueError(
                     "The number of intervals must be half the number of time points"
                 )
-            self.intervals_ = np.array_split(self._time_index, self.intervals)
+            # store [start, end) pairs, like user-given intervals, so that every
+            # time point belongs to exactly one interval
+            self.intervals_ = [
+                np.array([index[0], index[-1] + 1])
+                for index in np.array_split(self._time_index, self.intervals)
+            ]
 
         else:
             raise ValueError(
